@@ -29,7 +29,7 @@ import lexer
 LEVEL = "proof"
 EXTRA_TARGETS = ["model/C07Tie.vo"]
 
-KITTY_CHUNKED = {"api": "old", "style": "kitty", "frames": 3, "size": "fixed", "width": 4, "noise": True, "px": [40, 40],
+KITTY_CHUNKED = {"api": "old", "style": "kitty", "frames": 3, "size": "fixed", "width": 8, "noise": True, "px": [80, 80],
                  "style_args": {"method": "whole"}}
 
 # (name, scenario, in quick tier)
@@ -131,17 +131,6 @@ def frames_of(scn, base):
     return [ws[h0]]
 
 
-def fault_pos(res):
-    """model coordinates (k, j, cut, inwrite) of the fault of a faulted run"""
-    hit = res.get("hit")
-    if not hit:
-        return None
-    calls = res["calls"]
-    idx = len(calls) - 1  # the faulted call is the last faultable call before the recovery ... not necessarily: find it
-    # the hit call is the one at index fault.k; everything before it ran normally
-    return hit, calls
-
-
 def coords(case, res):
     f = case["fault"]
     calls = res["calls"]
@@ -181,21 +170,21 @@ def scn_term(scn, base):
 def ev_term(e):
     cls, arg, f = e
     ft = ["FNone", "(FBefore KI)", "(FBefore Exc)", "(FAfter KI)", "(FAfter Exc)"][f]
-    return f"mkev {cls} {b(arg)} {ft}"
+    return f"mkev {cls}%nat {b(arg)} {ft}"
 
 
 def case_term(sidx, case, res, pos, obs):
-    f = case.get("fault")
+    f = case.get("fault") if res.get("injected") else None   # e.g. "after" a next() that raised StopIteration
     kind = 0 if not f else (1 if f["kind"] == "KI" else 2)
     if pos is None:
         pt = "None"
     else:
         k, j, c, inw = pos
         ct = "None" if c is None else "(Some " + {"csi": "CutCsi", "osc": "CutOsc", "apc": "CutApc"}[c] + ")"
-        pt = f"(Some (mkpos {k} {j} {ct} {b(inw)}))"
+        pt = f"(Some (mkpos {k}%nat {j}%nat {ct} {b(inw)}))"
     fin = True if res.get("finalized") is None else res["finalized"]
-    return (f"mkcase sc_{sidx} fr_{sidx} {pt} {kind} {b(res.get('started'))} {lexer.coq_toks(obs)} "
-            f"{core.coq_list(res['events'], ev_term)} {res['out']} {b(res['termios_same'])} {b(fin)} "
+    return (f"mkcase sc_{sidx} fr_{sidx} {pt} {kind}%nat {b(res.get('started'))} {lexer.coq_toks(obs)} "
+            f"{core.coq_list(res['events'], ev_term)} {res['out']}%nat {b(res['termios_same'])} {b(fin)} "
             f"{b(res['size_same'])} {b(res['seek_same'])}")
 
 
@@ -289,7 +278,7 @@ def run(ctx):
             continue
         try:
             obs = lex_segments(r["segs"])
-            pos = coords(c, r) if c.get("fault") else None
+            pos = coords(c, r) if c.get("fault") and r.get("injected") else None
             term = case_term(sidx[c["name"]], c, r, pos, obs)
         except lexer.LexError as e:
             errors.append(f"unlexable stream: {describe(c['name'], c)}: {e}")
@@ -300,7 +289,7 @@ def run(ctx):
             keys.append(term)
         owner.append(key_idx[term])
     header = ("From Coq Require Import List ZArith Bool Arith.\nImport ListNotations.\n"
-              "From TI Require Import lib.Term lib.Eff model.SkelTie model.DrawInt model.C07Tie.\nOpen Scope nat_scope.\n"
+              "From TI Require Import lib.Term lib.Eff model.SkelTie model.DrawInt model.C07Tie.\nOpen Scope Z_scope.\n"
               + "".join(defs))
     codes = {}
     tie, gen = core.COQ / "model" / "C07Tie.vo", core.COQ / "gen" / "Skeletons.v"
@@ -319,8 +308,8 @@ def run(ctx):
     for c, r, o in zip(cases, results, owner):
         if o is None:
             continue
-        f = c.get("fault")
-        code, bits = codes.get(o, (0, 0)) if coq_ok else (0, 0)
+        f = c.get("fault") if r.get("injected") else None
+        code, bits = codes.get(o, (0, 0)) if coq_ok else (99, 0)  # 99: not judged
         hist["scenario"][c["name"]] = hist["scenario"].get(c["name"], 0) + 1
         fk = "none" if not f else f["kind"]
         hist["fault_kind"][fk] = hist["fault_kind"].get(fk, 0) + 1
@@ -332,6 +321,9 @@ def run(ctx):
             last = lexer.lex(cuts[-1])
             ck = last[-1][1] if last and last[-1][0] == "cut" else "between-sequences"
             hist["cut_kind"][ck] = hist["cut_kind"].get(ck, 0) + 1
+            opened = [t for t in last if t[0] in ("kfirst", "kcont")]
+            if opened and opened[-1][-3 if opened[-1][0] == "kfirst" else -3] is True:
+                hist["cut_with_chunked_transmission_pending"] = hist.get("cut_with_chunked_transmission_pending", 0) + 1
         hist["judgement"][str(code)] = hist["judgement"].get(str(code), 0) + 1
         hist["outcome"][str(r["out"])] = hist["outcome"].get(str(r["out"]), 0) + 1
         if bits:
